@@ -137,7 +137,7 @@ def run(ctx):
         return gen_dup_history(rng) if rng.random() < 0.4 else orig(rng, length, **kw)
     C.gen_history = mixed
     try:
-        runs = C.explore(ctx, ctx.n(80, 3000), 10, c03.STYLES, p_invalid=0.1, observe=observe)
+        runs = C.explore(ctx, ctx.n(400, 6000), 10, c03.STYLES, p_invalid=0.1, observe=observe)
     finally:
         C.gen_history = orig
     for r in runs:
